@@ -372,4 +372,21 @@ def c17(tier):
         LIFE_FUNCS + ['lomond.websocket.WebSocket.reset/State.__init__', 'lomond.session.WebsocketSession.__init__'])
 
 
-PROPS = {'C17': c17, 'C19': c19, 'C10': c10, 'C07': c07, 'C08': c08, 'C09': c09, 'C13': c13, 'C03': c03, 'C02': c02, 'C05': c05, 'C01': c01, 'C04': c04, 'C14': c14}
+def c16(tier):
+    q = tier == 'quick'
+    S = lambda name, what, **P: Spec(name, 'checks.persist', 'run_persist', dict(P, xval_stride=P.get('xval_stride', 29)), what=what, logic=None)
+    specs = [
+        S('outcomes-K%d' % (3 if q else 4), 'real persist() over a real WebSocket: per attempt a solver variable picks one of 7 outcomes; random() = symbolic Real in [0,1); '
+          'min_wait<=max_wait symbolic reals; exit_event.wait returns a symbolic bool; obligations: one BackOff per attempt, delay == wait argument, '
+          'min_wait <= delay <= max_wait, delay == min_wait + u*min(max_wait-min_wait, 2^k) with k = consecutive attempts without Ready, pass-through by identity',
+          K=3 if q else 4),
+        S('growth-K%d' % (8 if q else 10), 'long runs restricted to {refused, ready-then-drop}: the window keeps doubling (2^k up to k=%d) and resets after Ready' % (8 if q else 10),
+          K=8 if q else 10, outcomes=['refused', 'ready-drop'], sym_exit=False),
+        S('defaults', 'default min_wait=5/max_wait=30, 5 attempts', K=5, outcomes=['refused', 'rejected', 'ready-close'], sym_waits=False, sym_exit=False),
+    ]
+    return run_property('C16', tier, specs, 'model_checking', 'persist() back-off', ENV_ASSUMPTIONS + [
+        'floats are idealised as reals (z3 Real; u*w is non-linear real arithmetic)', 'bound: K attempts per run'],
+        ['lomond.persist.persist', 'lomond.websocket.WebSocket.connect', 'lomond.session.WebsocketSession.run'])
+
+
+PROPS = {'C16': c16, 'C17': c17, 'C19': c19, 'C10': c10, 'C07': c07, 'C08': c08, 'C09': c09, 'C13': c13, 'C03': c03, 'C02': c02, 'C05': c05, 'C01': c01, 'C04': c04, 'C14': c14}
